@@ -42,6 +42,16 @@ func (e *Engine) Register(name string, in Intrinsic) {
 	e.intrCache = map[*ssa.Function]Intrinsic{}
 }
 
+// Unregister removes every intrinsic whose name contains sub (the real function body is executed instead).
+func (e *Engine) Unregister(sub string) {
+	for k := range e.intr {
+		if strings.Contains(k, sub) {
+			delete(e.intr, k)
+		}
+	}
+	e.intrCache = map[*ssa.Function]Intrinsic{}
+}
+
 func registerIntrinsics(e *Engine) {
 	e.intrCache = map[*ssa.Function]Intrinsic{}
 	c := e.ctx
@@ -309,6 +319,12 @@ func registerIntrinsics(e *Engine) {
 		lt := st.strLess(sa, sb)
 		gt := st.strLess(sb, sa)
 		ret(c.Ite(lt, c.Const(^uint64(0), 64), c.Ite(gt, c.Const(1, 64), c.Const(0, 64))))
+	}
+	e.intr["internal/bytealg.MakeNoZero"] = func(st *State, fn *ssa.Function, args []Value, ret func(Value)) {
+		n := st.asT(args[0])
+		st.checkAlloc(n, 1, "MakeNoZero")
+		id := st.alloc(n, nil, "bytealg.MakeNoZero")
+		ret(Slice{Ptr{id, e.k64(0)}, n, n})
 	}
 	e.intr["internal/bytealg.CountString"] = func(st *State, fn *ssa.Function, args []Value, ret func(Value)) {
 		s := args[0].(Str)
